@@ -233,13 +233,17 @@ class OkapiIndex(BaseIndex):
         self._totaldoclen = Length(0)
 
     def index_doc(self, docid, text):
+        if docid in self._docwords:
+            return self.reindex_doc(docid, text)
         count = BaseIndex.index_doc(self, docid, text)
         self._change_doc_len(count)
         return count
 
     def reindex_doc(self, docid, text):
         self._change_doc_len(-self._docweight[docid])
-        return BaseIndex.reindex_doc(self, docid, text)
+        count = BaseIndex.reindex_doc(self, docid, text)
+        self._change_doc_len(count)
+        return count
 
     def unindex_doc(self, docid):
         if docid not in self._docwords:
